@@ -7,11 +7,22 @@ _cache = {}
 CFG = "all"
 
 
+def vocabulary():
+    """function paths the rules were written against (rules/tables/vocab.txt); a workspace function outside it is a
+    helper the rules have no name for and is analysed inlined into its callers"""
+    import os
+    p = os.path.join(os.path.dirname(os.path.abspath(__file__)), "tables", "vocab.txt")
+    with open(p) as fh:
+        return {l.strip() for l in fh if l.strip()}
+
+
 def program(cfg=None):
     cfg = CFG if cfg in (None, "all") else cfg
     if cfg not in _cache:
         d, info = extract.extract(cfg)
-        _cache[cfg] = (ir.Prog(d), info)
+        prog = ir.Prog(d)
+        info = dict(info, inlined_helpers=prog.inline_helpers(vocabulary()))
+        _cache[cfg] = (prog, info)
     return _cache[cfg]
 
 
@@ -28,7 +39,8 @@ def at_point(term, atom, value_term):
 
 def note_extraction(chk, info, prog):
     chk.notes["facts"] = {"tree_hash": info.get("tree_hash"), "cached": info.get("cached"),
-                          "functions": len(prog.fns), "adts": len(prog.adts), "impls": len(prog.impls)}
+                          "functions": len(prog.fns), "adts": len(prog.adts), "impls": len(prog.impls),
+                          "helpers_inlined_into_callers": info.get("inlined_helpers", [])}
 
 
 class _Scratch:
